@@ -39,14 +39,15 @@ func (r *balanceReporterCollapsed) Flush() error {
 	return r.output.Flush()
 }
 
-func getJump(node *shared.TreeNode) []string {
-	if len(node.Children) == 0 {
-		return []string{node.Name}
+// getJump follows the chain of sole children that starts at node and returns
+// the names along the chain and the node at which the chain ends
+func getJump(node *shared.TreeNode) ([]string, *shared.TreeNode) {
+	names := []string{node.Name}
+	for len(node.Children) == 1 {
+		node = node.FirstChild()
+		names = append(names, node.Name)
 	}
-	if len(node.Children) == 1 {
-		return append([]string{node.Name}, getJump(node.FirstChild())...)
-	}
-	return []string{}
+	return names, node
 }
 
 func printNodeCollapsed(node *shared.TreeNode, level int, output io.Writer) error {
@@ -54,17 +55,12 @@ func printNodeCollapsed(node *shared.TreeNode, level int, output io.Writer) erro
 	for _, key := range node.Keys() {
 		child := node.Children[key]
 
-		jump := getJump(child)
-		if len(jump) > 0 {
-			if _, err = fmt.Fprintf(output, "%10.2f | %s%s\n", child.Total, strings.Repeat("  ", level), strings.Join(jump, "/")); err != nil {
-				return err
-			}
-			continue
-		}
-		if _, err = fmt.Fprintf(output, "%10.2f | %s%s\n", child.Total, strings.Repeat("  ", level), child.Name); err != nil {
+		jump, last := getJump(child)
+		if _, err = fmt.Fprintf(output, "%10.2f | %s%s\n", child.Total, strings.Repeat("  ", level), strings.Join(jump, "/")); err != nil {
 			return err
 		}
-		if err = printNodeCollapsed(child, level+1, output); err != nil {
+		// the chain ends in a leaf or in a fork; print what is below the fork
+		if err = printNodeCollapsed(last, level+1, output); err != nil {
 			return err
 		}
 	}
